@@ -246,6 +246,36 @@ fn make_task<'a>(
                 }
             }))
         }
+        // An application that keeps the response view of a raw read (`receive_slice`) while it goes on with other
+        // operations, and looks at it again afterwards: the bytes must still be the ones it was given.
+        "slice_hold" => {
+            let (g, i) = locate(device)?;
+            let reg = get_u64(spec, "reg", 0x0010) as u16;
+            let hold = get_u64(spec, "hold", 3).min(20);
+            let group = &groups[g];
+            Ok(Box::pin(async move {
+                let Ok(sd) = group.subdevice(md, i) else { return };
+                let addr = sd.configured_address();
+                for _ in 0..count {
+                    let v = match ethercrab::Command::fprd(addr, reg).receive_slice(md, 2u16).await {
+                        Ok(view) => {
+                            let first = view.to_vec();
+                            for _ in 0..hold {
+                                let _ = sd.register_read::<u16>(0x0130u16).await;
+                            }
+                            let again = view.to_vec();
+                            if again == first {
+                                json!({"r": "ok", "bytes": bytes(&first)})
+                            } else {
+                                json!({"r": "ViewChangedWhileHeld", "bytes": bytes(&again), "detail": format!("{first:?} -> {again:?}")})
+                            }
+                        }
+                        Err(e) => json!({"r": err_str(&e), "detail": format!("{e:?}"), "bytes": []}),
+                    };
+                    push(&results, t, v);
+                }
+            }))
+        }
         "sdo_read" => {
             let (g, i) = locate(device)?;
             let index = get_u64(spec, "index", 0x2000) as u16;
